@@ -97,7 +97,7 @@ def get(dsk: Mapping, out: list | Key, cache: MutableMapping | None = None) -> A
     >>> get(d, 'y')
     2
     """
-    for k in flatten(out):
+    for k in flatten(out) if isinstance(out, list) else [out]:
         if k not in dsk:
             raise KeyError(f"{k} is not a key in the graph")
     if cache is None:
